@@ -195,9 +195,10 @@ class ScriptedProduct:
 class ScriptedCriteria:
     """ConvergenceCriteria whose callbacks are chosen by the solver (bounded)"""
 
-    def __init__(self, ctx, bound, force_first=None):
+    def __init__(self, ctx, bound, force_first=None, offset=0):
         self.ctx = ctx
         self.bound = bound
+        self.offset = offset  # answers are offset + [0, bound]
         self.ns_calls = []
         self.criteria_calls = []
         self.force_first = force_first
@@ -210,7 +211,7 @@ class ScriptedCriteria:
         else:
             out = np.empty(n, dtype=object)
             for i in range(n):
-                out[i] = self.ctx.int(f"Ns[{k},{i}]", 0, self.bound).__index__()
+                out[i] = self.offset + self.ctx.int(f"Ns[{k},{i}]", 0, self.bound).__index__()
         self.ns_calls.append((len(vl), list(out)))
         return out
 
@@ -221,11 +222,11 @@ class ScriptedCriteria:
         return b
 
 
-def make_engine(ctx, initial_level, n0, level_max, bound, nb_of_processes=1):
+def make_engine(ctx, initial_level, n0, level_max, bound, nb_of_processes=1, offset=0):
     reg = Registry(ctx)
     df = ctx.real("df", 0)
     notional = ctx.real("notional")
-    crit = ScriptedCriteria(ctx, bound)
+    crit = ScriptedCriteria(ctx, bound, offset=offset)
     cc = CR.ConvergenceCriteria(criteria=crit.criteria, compute_mc_paths=crit.compute_mc_paths)
     cfg = CFG.ConfigurationMultiLevel(convergence_rates=CFG.ConvergenceRates(alpha=1.0, beta=1.0, gamma=1.0), convergence_criteria=cc,
                                       initial_level=initial_level, maximum_level=level_max, initial_mc_paths=n0, seed=None,
